@@ -17,10 +17,11 @@
 -/
 import IcingaModel.C14.Model
 import IcingaModel.C20.Model
+import IcingaModel.C20.Limit
 
 namespace Icinga.C14
 
-open Icinga.C20 (JValue NumCodec Bytes jsonEncode jsonDecode nsEncode nsEncodeAll)
+open Icinga.C20 (JValue NumCodec Bytes jsonEncode jsonDecode jsonDecodeL nsEncode nsEncodeAll)
 
 def typeKey : Key := ['t', 'y', 'p', 'e']
 def nameKey : Key := ['n', 'a', 'm', 'e']
@@ -112,10 +113,11 @@ def restoreFields {N : Type} (known : Key → Bool) (fields : Dict N) (upd : Dic
 
 /-- `RestoreObject(message)` (configobject.cpp:503-523) for the object the message names, freshly
     created from the configuration (`fresh`).  `none`: the message is not a `{…, "update": {…}}`
-    dictionary (the real code throws). -/
+    dictionary or is nested deeper than the decoder's limit (the real code throws inside the work queue and the
+    object keeps the state it was created with). -/
 def restoreMessage {N : Type} (c : NumCodec N) (known : Key → Bool) (fresh : SObj N) (msg : Bytes) :
     Option (SObj N) :=
-  match jsonDecode c msg with
+  match jsonDecodeL c msg with          -- the real JsonDecode refuses documents nested deeper than 1000 (json.cpp:276-283)
   | some (.obj kvs) =>
     match dGet? updateKey kvs with
     | some (.obj upd) => some { fresh with fields := restoreFields known fresh.fields upd }
